@@ -145,7 +145,7 @@ Definition next_segment (st : est) : outcome est :=
   let buf := pad_even (e_buf st1) in
   if (e_count st1 <? 0) || (e_count st1 >=? 15) then Panic
   else Ok (mkE (e_count st1 + 1) (upd (e_offsets st1) (e_count st1) (wrapU 32 (zlen buf)))
-               buf (e_c st1) (e_ovf st1 || (zlen buf >? 100))).
+               buf (e_c st1) (e_ovf st1 || (zlen buf >? 4294967295))).
 Definition make_even (st : est) : est :=
   mkE (e_count st) (e_offsets st) (pad_even (e_buf st)) (e_c st) (e_ovf st).
 Definition get_buffer (st : est) : list Z :=
